@@ -6,17 +6,23 @@ import "time"
 
 // ---------- helpers used by the generated generators (zz_verif_gen_fill.go) ----------
 
-// vGenWide selects the thorough tier's second shape family: up to 2 elements per collection,
-// values one nesting level shallower (shape A is the quick tier's: 0..1 elements, depth 2).
+// vGenWide selects the thorough tier's second shape family: one collection (the 1st..4th of the
+// value, by choice) holds up to 2 elements, values are one nesting level shallower (shape A is
+// the quick tier's: 0..1 elements everywhere, depth 2).
 var vGenWide bool
+var vGenWideIndex, vGenCalls int
 
 func vGenLen(label string, d int) int {
 	if d <= 0 {
 		return 0
 	}
 	if vGenWide {
-		// thorough, shape B: collections of 0..2 elements (one nesting level less)
-		return vChoose(label+".len", 3)
+		// thorough, shape B: the vGenWideIndex-th collection of the value holds 0..2 elements
+		k := vGenCalls
+		vGenCalls++
+		if k == vGenWideIndex {
+			return vChoose(label+".len", 3)
+		}
 	}
 	return vChoose(label+".len", 2)
 }
@@ -146,6 +152,7 @@ func verifHarness_C09_roundTrip() {
 	depth := 2
 	if vTier() > 0 && vChoose("shapeFamily", 2) == 1 {
 		vGenWide = true
+		vGenWideIndex = vChoose("wideCollection", 4)
 		depth = 1
 	}
 	m := gen(depth)
